@@ -870,6 +870,28 @@ theorem posBound_map_rmInf (cells : List Cell) (seq : Nat) (p : Int) (h : PosBou
   · exact h y hy s (mem_dropSeq hs).1
   · exact h y hy s hs
 
+/-- with positions below `MaxInt32` a removal to the end is never refused, so the repaired `Remove`
+    behaves like the pinned one -/
+theorem removeV_inf (c : Cache) (seq : Nat) (p : Int) (hb : PosBound c.cells) :
+    removeV c seq p maxInt32 = remove c seq p maxInt32 := by
+  unfold removeV
+  split
+  · have hg : removeGuard c seq p maxInt32 = none := by
+      unfold removeGuard
+      have h1 : c.cells.any (fun x => decide (seq ∈ x.seqs) && !(decide (p ≤ x.pos ∧ x.pos < maxInt32))
+          && decide (x.pos ≥ maxInt32) && sharedOther seq x.seqs) = false := by
+        rw [List.any_eq_false]
+        intro x hx
+        by_cases hs : seq ∈ x.seqs
+        · have := hb x hx seq hs
+          have h2 : ¬ x.pos ≥ maxInt32 := by omega
+          simp [h2]
+        · simp [hs]
+      rw [h1]
+      simp
+    rw [hg]
+  · rfl
+
 /-- the whole unwind on one cell -/
 def unwCell (b : List Tok) (x : Cell) : Cell := b.foldl (fun x t => rmInf t.seq t.pos x) x
 
@@ -885,7 +907,7 @@ theorem unwind_cells (c : Cache) (b : List Tok) (hb : PosBound c.cells) :
       rw [h1]; exact posBound_map_rmInf _ _ _ hb
     have := ih (remove c t.seq t.pos maxInt32).1 hb'
     simp only [unwind, List.foldl_cons] at this ⊢
-    rw [this.1, this.2, h1, h2]
+    rw [removeV_inf c t.seq t.pos hb, this.1, this.2, h1, h2]
     simp [unwCell, List.map_map, Function.comp]
 
 theorem unwCell_pos (b : List Tok) (x : Cell) : (unwCell b x).pos = x.pos := by
